@@ -14,7 +14,7 @@ import (
 func init() {
 	register(&Check{ID: "C11", Level: "model_checking", Run: func(c *Ctx) {
 		c.R.Trusted = []string{"TLC 1.8.0 / SANY", "Go race detector (ThreadSanitizer runtime) as the memory-level monitor of 'read actions do not write'", "Go scheduler"}
-		res, err := RunTLC(filepath.Join(c.S.Dir, "readerstlc"), TLCOpts{Spec: "Readers", Cfg: "Readers.cfg", Workers: 4, Timeout: 10 * time.Minute, Env: map[string]string{"VERIF_CACHING": "0"}})
+		res, err := RunTLC(filepath.Join(c.S.Dir, "readerstlc"), TLCOpts{Spec: "Readers", Cfg: "Readers.cfg", Workers: 4, Timeout: 10 * time.Minute, Env: map[string]string{"VERIF_CACHING": "0", "VERIF_VIEWCACHE": "0"}})
 		if err != nil || res.Err != "" {
 			c.R.InternalErr("Readers.tla: %v %s", err, trunc(res.Err, 1000))
 		} else {
